@@ -6,7 +6,8 @@ name that did not exist when the rule was written.  A local is substituted back 
   * it is assigned exactly once, by a plain `name = <expr>` statement, and every use follows that statement inside the same block
     (or blocks nested in it);
   * no name occurring in <expr> is re-bound between the assignment and the last use (textually);
-  * <expr> contains no yield / await / walrus.
+  * <expr> contains no yield / await / walrus; an <expr> that creates an object (display, comprehension, non-builtin call) is substituted
+    only into a single, non-mutating use.
 The assignment is then dropped and every use replaced by <expr>.  This only undoes naming of intermediate values; the rules still
 analyse the current computation.
 """
@@ -74,6 +75,19 @@ def propagate_function(f, ref_names):
             e = d.value
             if any(isinstance(x, (ast.Yield, ast.YieldFrom, ast.Await, ast.NamedExpr)) for x in ast.walk(e)):
                 continue
+            # an expression that builds a new object (display, comprehension, arbitrary call) has identity: it may only replace a single use,
+            # and never a use that mutates it (receiver of a method call, target of an item / attribute store)
+            PURE = {'len', 'min', 'max', 'abs', 'int', 'float', 'str', 'bool', 'tuple', 'sum', 'round'}
+            builds = any(isinstance(x, (ast.List, ast.Dict, ast.Set, ast.ListComp, ast.SetComp, ast.DictComp, ast.GeneratorExp)) or
+                         (isinstance(x, ast.Call) and not (isinstance(x.func, ast.Name) and x.func.id in PURE)) for x in ast.walk(e))
+            if builds:
+                loads = [n for n in ast.walk(f) if isinstance(n, ast.Name) and n.id == v and isinstance(n.ctx, ast.Load)]
+                mutated = any((isinstance(n, ast.Attribute) and isinstance(n.value, ast.Name) and n.value.id == v) or
+                              (isinstance(n, ast.Subscript) and isinstance(n.value, ast.Name) and n.value.id == v and isinstance(n.ctx, (ast.Store, ast.Del)))
+                              for n in ast.walk(f))
+                in_loop_use = False
+                if len(loads) != 1 or mutated:
+                    continue
             blk = _find_block(f, d)
             if blk is None:
                 continue
